@@ -1,11 +1,38 @@
 import NanoVerif.Proofs.Split
+import NanoVerif.Proofs.SplitSampler
+import NanoVerif.Proofs.SplitBall
 /-!
   C12 — splitters and samplers return index sets with the promised set structure.
 
-  Theorems about `Model/Split.lean`. The shuffle, the drawn positions and the sort are oracles: every theorem holds
-  for every permutation `perm` of the samples, every list of draws and every `sort` satisfying `SortSpec`
-  (instantiated by `sortI_spec` for the merge sort that runs in the driver). `samples.Nodup` is the hypothesis
+  Theorems about `Model/Split.lean` and `Model/SplitSampler.lean`. `std::shuffle`, `uniform_int_distribution` and the sort are
+  oracles: every theorem holds for every permutation `perm` of the samples, every list of draws and every `sort` satisfying
+  `SortSpec` (instantiated by `sortI_spec` for the merge sort that runs in the driver). `samples.Nodup` is the hypothesis
   "a list of distinct sample indices" of the property. Nothing is `_partial`.
+
+  ## Gap table (every function of the anchored files)
+
+  | C++ | status | Lean |
+  |---|---|---|
+  | splitter.cpp:7-12 `splitter_t::splitter_t` (registers folds, seed) | translated + modelled | `Gen.Splitter.*`, `Splitter.fresh`, `Splitter.set`, `paramsOk` |
+  | splitter.cpp:14-27 `splitter_t::all` (factory, call_once) | outside (C19 owns the factories; the harness obtains every object through it) | — |
+  | kfold.cpp:6-9 constructor | modelled | `Splitter.fresh .kfold` |
+  | kfold.cpp:11-45 `kfold_splitter_t::split` | modelled | `kfold`, `foldSplit`, `validBegin/End`, object level `Splitter.split`, `hStep` |
+  | kfold.cpp:47-50 `clone` | modelled | `HCmd.clone` (`hist_clone_copies`) |
+  | random.cpp:7-11 constructor (registers train_per) | translated + modelled | `Gen.Splitter.trainPer*`, `Splitter.set .trainPer` (random only) |
+  | random.cpp:13-45 `random_splitter_t::split` | modelled | `trainSize` (through translated `Gen.idiv`), `randomPerms`, `randomSplit`, `Splitter.split` |
+  | random.cpp:47-50 `clone` | modelled | `HCmd.clone` |
+  | sampling.cpp:5-13 `sample_with_replacement(samples, count, rng)` | modelled | `sampleWith`, `pick`, `withG` (generator threaded) |
+  | sampling.cpp:21-33 `sample_with_replacement(samples, weights, count, rng)` | modelled, incl. the distribution | `wwithG`, `ddCp`, `ddDraw`, `lowerBound` |
+  | sampling.cpp:41-51 `sample_without_replacement(samples, count, rng)` | modelled | `sampleWithout`, `withoutG` |
+  | sampling.cpp:15-19, 35-39, 53-57, 59-63, 75-79 overloads without a generator | outside: `make_rng()` reads `std::random_device`; their answers go to the property oracle (family `unseeded`) | — |
+  | sampling.cpp:65-73, 81-100 `sample_from_ball(x0, radius[, x], rng)` | modelled; normal / uniform draws, `pow`, `lpNorm<2>` are oracles (`u`, `z`, `s`) | `ballPoint`, `distSq`, `ball_inside` |
+  | random.cpp (core):6-17 `make_rng(seed)` | seeded branch modelled; unseeded branch outside | `lcgSeed`, `lcgNext` |
+  | gboost/sampler.cpp:7-15 constructor | modelled | `Sampler.make` |
+  | gboost/sampler.cpp:17-62 `sampler_t::sample` | modelled: count, weights, the routine called per mode, the member generator | `Sampler.count`, `Sampler.newWeights`, `Sampler.sample`, `Sampler.run` |
+  | numeric.h `idiv`, `iround` | translated | `Gen.idiv`, `Gen.iround` |
+  | numeric.h `square`, `cube`, `quartic`, `close`, `roundpow10`, `epsilon*`, … | outside: not used by the anchored code | — |
+  | libstdc++ `minstd_rand`, `generate_canonical<double,53>`, `discrete_distribution` | modelled as coded (gcc 12 `bits/random.tcc`) | `lcgNext`, `canonNum` / `canonical`, `accum`, `normalize`, `partialSums`, `setLast`, `ddCp`, `lbGo` |
+  | libstdc++ `std::shuffle`, `uniform_int_distribution`, `std::sort`, `normal_distribution`, `std::pow` | oracle: contracts `StdLib.Ok`, `SortSpec`, hypotheses of `ball_inside`; monitored on every call by the driver (`isShuffleOf`, range of each draw) | — |
 -/
 namespace NanoVerif.Split
 
@@ -267,6 +294,326 @@ theorem ball_inside {α : Type} [Field α] [LinearOrder α] [IsStrictOrderedRing
   have hrz0 : 0 ≤ r * z := mul_nonneg hr hz0
   nlinarith
 
+
+/-! ## gap-closing round: the objects (generator threaded through), the discrete distribution, the edge cases -/
+
+/-! ### `sampling.cpp` edge cases -/
+
+/-- All samples asked (`count = n`): the answer is the sorted input, whatever the shuffle did — for unsorted inputs and inputs
+    with repeated values too (a seeded change returned the unsorted copy on this path). -/
+theorem without_full_is_sorted_input (sort : List Int → List Int) (hs : SortSpec sort) (samples perm : List Int)
+    (hp : perm.Perm samples) : sampleWithout sort perm samples.length = some (sortI samples) := by
+  unfold sampleWithout
+  rw [if_pos (by rw [hp.length_eq]), ← hp.length_eq, List.take_length, hs.eq_sortI]
+  exact congrArg some (sortI_spec.congr hp)
+
+/-- Without the hypothesis "distinct": `count` sorted values, none more often than the input holds it (a sub-multiset). -/
+theorem without_replacement_submultiset (sort : List Int → List Int) (hs : SortSpec sort) (samples perm : List Int)
+    (hp : perm.Perm samples) (count : Nat) (r : List Int) (h : sampleWithout sort perm count = some r) :
+    r.length = count ∧ r.Pairwise (· ≤ ·) ∧ r.Subperm samples := by
+  unfold sampleWithout at h
+  split at h
+  · rename_i hc
+    cases h
+    refine ⟨by rw [hs.length, List.length_take]; omega, hs.sorted _, ?_⟩
+    exact ((hs.perm _).subperm_right).mpr (((List.take_sublist count perm).subperm).trans hp.subperm)
+  · cases h
+
+/-- `count = 0`: both samplers answer the empty selection (nothing is read from the samples, which may be empty). -/
+theorem sampling_zero (sort : List Int → List Int) (hs : SortSpec sort) (samples perm : List Int) :
+    sampleWithout sort perm 0 = some [] ∧ sampleWith sort samples 0 [] = some [] := by
+  have h0 : sort [] = [] := List.Perm.eq_nil (hs.perm [])
+  constructor
+  · simp [sampleWithout, h0]
+  · simp [sampleWith, pick, h0]
+
+/-! ### the weighted draw -/
+
+/-- **Weighted sampling never returns an index of zero weight — for the model of the code that draws** (`minstd_rand` →
+    `generate_canonical` → libstdc++ `discrete_distribution` → `samples(position)` → sort), in exact arithmetic, with NO
+    contract assumed of the distribution: weights non-negative, one per sample, positive sum; canonical draws in `(0, 1]`
+    (`CanonOk`; for `minstd_rand` see `canonNum_pos`, `canonNum_lt`). The answer exists, has `count` sorted members, and every
+    position holding a returned index has positive weight. -/
+theorem weighted_never_zero_model {G α : Type} [Field α] [LinearOrder α] [IsStrictOrderedRing α]
+    (L : StdLib G α) (hc : L.CanonOk) (sort : List Int → List Int) (hs : SortSpec sort)
+    (samples : List Int) (weights : List α) (count : Nat) (g : G)
+    (hnd : samples.Nodup) (hlen : weights.length = samples.length) (hw : ∀ x ∈ weights, 0 ≤ x) (hS : 0 < weights.sum) :
+    ∃ r, (wwithG L sort samples weights count g).1 = some r ∧ r.length = count ∧ r.Pairwise (· ≤ ·) ∧
+      (∀ x ∈ r, x ∈ samples) ∧
+      ∀ x ∈ r, ∀ (i : Nat) (w : α), samples[i]? = some x → weights[i]? = some w → 0 < w := by
+  -- every draw is a position of positive weight
+  have hdraw : ∀ g', DrawsPositive weights [(ddDrawG L (ddCp weights).toArray g').1] := by
+    intro g' d hd
+    simp only [List.mem_singleton] at hd
+    subst hd
+    by_cases hn : 2 ≤ weights.length
+    · have hsz : (ddCp weights).toArray.size = weights.length := by simp [ddCp_length weights hn]
+      have hne : ¬ ((ddCp weights).toArray.size = 0) := by rw [hsz]; omega
+      obtain ⟨h1, h2⟩ := ddDraw_positive weights (L.canon g').1 hn hw hS (hc g').1 (hc g').2
+      have hd : (ddDrawG L (ddCp weights).toArray g').1 = ddDraw (ddCp weights).toArray (L.canon g').1 := by
+        unfold ddDrawG; rw [if_neg hne]
+      rw [hd]
+      exact ⟨_, List.getElem?_eq_getElem h1, h2⟩
+    · have hcp : ddCp weights = [] := ddCp_short weights (by omega)
+      match weights, hn, hS, hcp with
+      | [], _, hS, _ => simp at hS
+      | [w0], _, hS, hcp => exact ⟨w0, by simp [ddDrawG, hcp], by simpa using hS⟩
+      | _ :: _ :: _, hn, _, _ => simp at hn
+  have hall : DrawsPositive weights (drawsG (ddDrawG L (ddCp weights).toArray) count g).1 :=
+    drawsG_forall _ (fun d => ∃ w, weights[d]? = some w ∧ 0 < w) (fun g' => hdraw g' _ (by simp)) count g
+  have hrange : ∀ d ∈ (drawsG (ddDrawG L (ddCp weights).toArray) count g).1, d < samples.length := by
+    intro d hd
+    obtain ⟨w, hw', _⟩ := hall d hd
+    rw [← hlen]; exact (List.getElem?_eq_some_iff.mp hw').1
+  have hsome := (with_replacement_guard sort samples count _).mpr ⟨drawsG_length _ count g, hrange⟩
+  obtain ⟨r, hr⟩ := Option.isSome_iff_exists.mp hsome
+  have hr' : (wwithG L sort samples weights count g).1 = some r := hr
+  obtain ⟨h1, h2, h3⟩ := with_replacement_spec sort hs samples count _ r hr
+  exact ⟨r, hr', h1, h2, h3, weighted_never_zero sort hs samples weights count _ r hnd hall hr⟩
+
+/-- What the code does where the property has no valid answer (all-zero weights, a NaN weight: the cumulative table is NaN
+    closed by 1 and no comparison `cp[i] < u` succeeds): every draw is position 0, the answer is `count` copies of the FIRST
+    sample. This is why `0 < Σ weights` cannot be dropped from `weighted_never_zero_model` (replayed on the real code: corpus
+    line `split wwith … all-zero`). -/
+theorem weighted_no_comparison_first_sample {G α : Type} [Add α] [Div α] [LT α] [DecidableLT α] [OfNat α 0] [OfNat α 1]
+    (L : StdLib G α) (sort : List Int → List Int) (hs : SortSpec sort) (samples : List Int) (weights : List α)
+    (count : Nat) (g : G) (x0 : Int) (h0 : samples[0]? = some x0)
+    (hnan : ∀ g' i, decide ((ddCp weights).toArray.getD i 0 < (L.canon g').1) = false) :
+    (wwithG L sort samples weights count g).1 = some (List.replicate count x0) := by
+  have hd : ∀ g', (ddDrawG L (ddCp weights).toArray g').1 = 0 := by
+    intro g'
+    unfold ddDrawG
+    split
+    · rfl
+    · exact lowerBound_all_false _ _ (fun i _ => hnan g' i)
+  unfold wwithG
+  simp only [drawsG_const _ 0 hd count g, sampleWith, List.length_replicate, if_true,
+    pick_replicate_zero samples x0 h0 count, Option.map_some, hs.replicate]
+
+/-! ### `gboost::sampler_t` -/
+
+section sampler
+set_option linter.unusedSectionVars false
+variable {G α : Type} [Field α] [LinearOrder α] [IsStrictOrderedRing α]
+
+/-- The guard of `sample_without_replacement` (`assert(count <= samples.size())`, compiled out in release builds) is
+    established by the caller for every admissible ratio (`gboost::subsample_ratio ∈ (0, 1]`). -/
+theorem sampler_count_le (N : Num α) (hN : N.Ok) (s : Sampler G α) (h1 : s.ratio ≤ 1) :
+    s.count N ≤ s.samples.length := by
+  unfold Sampler.count
+  apply hN.trunc_le
+  have := hN.ofNat_nonneg s.samples.length
+  nlinarith
+
+/-- the weights of the two weighted modes are exactly the per-sample loss / the 2-norm of the per-sample gradient, in the
+    order of the samples; the other modes do not touch the buffer -/
+theorem sampler_weights_formula (N : Num α) (s : Sampler G α) (loss : Int → α) (grad : Int → List α) :
+    (s.mode = .weiLoss → s.newWeights N loss grad = s.samples.map loss) ∧
+    (s.mode = .weiGrad → s.newWeights N loss grad = s.samples.map (fun i => N.norm2 (grad i))) ∧
+    (s.mode ≠ .weiLoss → s.mode ≠ .weiGrad → s.newWeights N loss grad = s.weights) := by
+  unfold Sampler.newWeights
+  cases s.mode <;> simp
+
+/-- `off`: the samples, unchanged and in the caller's order; the object does not change. -/
+theorem sampler_off_spec (N : Num α) (L : StdLib G α) (sort : List Int → List Int) (s : Sampler G α)
+    (loss : Int → α) (grad : Int → List α) (hm : s.mode = .off) :
+    s.sample N L sort loss grad = (some s.samples, s) := by
+  unfold Sampler.sample; rw [hm]
+
+/-- `subsample`: `count = trunc(ratio·n)` distinct sorted members (the answer exists for every admissible ratio), one
+    `std::shuffle` is consumed. -/
+theorem sampler_subsample_spec (N : Num α) (hN : N.Ok) (L : StdLib G α) (hL : L.Ok) (sort : List Int → List Int)
+    (hs : SortSpec sort) (s : Sampler G α) (loss : Int → α) (grad : Int → List α) (hm : s.mode = .subsample)
+    (hnd : s.samples.Nodup) (h1 : s.ratio ≤ 1) :
+    ∃ r, (s.sample N L sort loss grad).1 = some r ∧ r.length = s.count N ∧ r.Pairwise (· < ·) ∧ (∀ x ∈ r, x ∈ s.samples) ∧
+      (s.sample N L sort loss grad).2 = { s with rng := (L.shuffle s.rng s.samples).2 } := by
+  have hperm := hL.shuffle_perm s.rng s.samples
+  have hc : s.count N ≤ (L.shuffle s.rng s.samples).1.length := by
+    rw [hperm.length_eq]; exact sampler_count_le N hN s h1
+  have hr : sampleWithout sort (L.shuffle s.rng s.samples).1 (s.count N)
+      = some (sort ((L.shuffle s.rng s.samples).1.take (s.count N))) := by
+    unfold sampleWithout; rw [if_pos hc]
+  obtain ⟨a, b, c⟩ := without_replacement_spec sort hs s.samples _ hnd hperm (s.count N) _ hr
+  refine ⟨_, ?_, a, b, c, ?_⟩
+  · unfold Sampler.sample; rw [hm]; exact hr
+  · unfold Sampler.sample; rw [hm]; rfl
+
+/-- `bootstrap`: `count` sorted members (repetitions allowed), `count` uniform draws are consumed. -/
+theorem sampler_bootstrap_spec (N : Num α) (L : StdLib G α) (hL : L.Ok) (sort : List Int → List Int)
+    (hs : SortSpec sort) (s : Sampler G α) (loss : Int → α) (grad : Int → List α) (hm : s.mode = .bootstrap)
+    (hne : s.samples ≠ []) :
+    ∃ r, (s.sample N L sort loss grad).1 = some r ∧ r.length = s.count N ∧ r.Pairwise (· ≤ ·) ∧ (∀ x ∈ r, x ∈ s.samples) := by
+  have hpos : 0 < s.samples.length := List.length_pos_iff.mpr hne
+  have hrange : ∀ d ∈ (drawsG (fun g => L.uniform g (s.samples.length - 1)) (s.count N) s.rng).1, d < s.samples.length :=
+    drawsG_forall _ (fun d => d < s.samples.length) (fun g => by have := hL.uniform_le g (s.samples.length - 1); omega) _ _
+  have hsome := (with_replacement_guard sort s.samples (s.count N) _).mpr ⟨drawsG_length _ _ _, hrange⟩
+  obtain ⟨r, hr⟩ := Option.isSome_iff_exists.mp hsome
+  obtain ⟨a, b, c⟩ := with_replacement_spec sort hs s.samples _ _ r hr
+  refine ⟨r, ?_, a, b, c⟩
+  unfold Sampler.sample; rw [hm]; exact hr
+
+/-- `wei_loss_bootstrap` / `wei_grad_bootstrap`: the weights are the losses / gradient norms; when they are non-negative
+    with a positive sum the answer exists, has `count` sorted members and never holds a sample of zero weight; the object
+    keeps the weights it computed. -/
+theorem sampler_weighted_spec (N : Num α) (L : StdLib G α) (hc : L.CanonOk) (sort : List Int → List Int)
+    (hs : SortSpec sort) (s : Sampler G α) (loss : Int → α) (grad : Int → List α)
+    (hm : s.mode = .weiLoss ∨ s.mode = .weiGrad) (hnd : s.samples.Nodup)
+    (hw : ∀ x ∈ s.newWeights N loss grad, 0 ≤ x) (hS : 0 < (s.newWeights N loss grad).sum) :
+    ∃ r, (s.sample N L sort loss grad).1 = some r ∧ r.length = s.count N ∧ r.Pairwise (· ≤ ·) ∧ (∀ x ∈ r, x ∈ s.samples) ∧
+      (∀ x ∈ r, ∀ (i : Nat) (w : α), s.samples[i]? = some x → (s.newWeights N loss grad)[i]? = some w → 0 < w) ∧
+      (s.sample N L sort loss grad).2.weights = s.newWeights N loss grad := by
+  have hlen : (s.newWeights N loss grad).length = s.samples.length := by
+    rcases hm with h | h
+    · rw [(sampler_weights_formula N s loss grad).1 h]; simp
+    · rw [(sampler_weights_formula N s loss grad).2.1 h]; simp
+  obtain ⟨r, h1, h2, h3, h4, h5⟩ :=
+    weighted_never_zero_model L hc sort hs s.samples (s.newWeights N loss grad) (s.count N) s.rng hnd hlen hw hS
+  refine ⟨r, ?_, h2, h3, h4, h5, ?_⟩
+  · rcases hm with h | h <;> (unfold Sampler.sample; rw [h]; exact h1)
+  · rcases hm with h | h <;> (unfold Sampler.sample; rw [h])
+
+/-- All five modes at once (what `gboost_spec` said of the core routine, now for the object with the count, the weights and the
+    generator inside): any answer holds members of the input only; `off` is the input itself; the other modes give `count`
+    sorted indices, strictly increasing for `subsample`. -/
+theorem sampler_mode_spec (N : Num α) (L : StdLib G α) (hL : L.Ok) (sort : List Int → List Int) (hs : SortSpec sort)
+    (s : Sampler G α) (loss : Int → α) (grad : Int → List α) (hnd : s.samples.Nodup) (r : List Int)
+    (h : (s.sample N L sort loss grad).1 = some r) :
+    (∀ x ∈ r, x ∈ s.samples) ∧ (s.mode = .off → r = s.samples) ∧
+    (s.mode ≠ .off → r.length = s.count N ∧ r.Pairwise (· ≤ ·)) ∧ (s.mode = .subsample → r.Pairwise (· < ·)) := by
+  unfold Sampler.sample at h
+  cases hm : s.mode <;> rw [hm] at h <;> simp only at h
+  · cases h; simp
+  · obtain ⟨a, b, c⟩ := without_replacement_spec sort hs s.samples _ hnd (hL.shuffle_perm s.rng s.samples) _ r h
+    exact ⟨c, by simp, fun _ => ⟨a, b.imp (fun h => Int.le_of_lt h)⟩, fun _ => b⟩
+  all_goals
+    obtain ⟨a, b, c⟩ := with_replacement_spec sort hs s.samples _ _ r h
+    exact ⟨c, by simp, fun _ => ⟨a, b⟩, by simp⟩
+
+/-- the configuration of the object never changes, and neither the answer nor the generator depend on what the weight buffer
+    held before the call (it is overwritten before it is read) -/
+theorem sampler_sample_frame (N : Num α) (L : StdLib G α) (sort : List Int → List Int) (s : Sampler G α)
+    (loss : Int → α) (grad : Int → List α) (buf : List α) :
+    (s.sample N L sort loss grad).2.samples = s.samples ∧ (s.sample N L sort loss grad).2.mode = s.mode ∧
+    (s.sample N L sort loss grad).2.ratio = s.ratio ∧
+    ({ s with weights := buf }.sample N L sort loss grad).1 = (s.sample N L sort loss grad).1 ∧
+    ({ s with weights := buf }.sample N L sort loss grad).2.rng = (s.sample N L sort loss grad).2.rng := by
+  unfold Sampler.sample Sampler.count Sampler.newWeights
+  cases hm : s.mode <;> simp [hm]
+
+/-- consecutive calls: one answer per call, the configuration is that of the constructor; two objects built from equal
+    arguments give equal answers (the object is a function of its constructor arguments and its call history) -/
+theorem sampler_run_spec (N : Num α) (L : StdLib G α) (sort : List Int → List Int) :
+    ∀ (calls : List ((Int → α) × (Int → List α))) (s : Sampler G α),
+      (Sampler.run N L sort s calls).1.length = calls.length ∧
+      (Sampler.run N L sort s calls).2.samples = s.samples ∧ (Sampler.run N L sort s calls).2.mode = s.mode ∧
+      (Sampler.run N L sort s calls).2.ratio = s.ratio
+  | [], s => by simp [Sampler.run]
+  | c :: cs, s => by
+    obtain ⟨a, b, c', d⟩ := sampler_run_spec N L sort cs (s.sample N L sort c.1 c.2).2
+    obtain ⟨f1, f2, f3, _⟩ := sampler_sample_frame N L sort s c.1 c.2 []
+    simp only [Sampler.run, List.length_cons, a, b, c', d, f1, f2, f3, and_self]
+
+end sampler
+
+/-! ### splitter objects: the parameters are the only state -/
+
+/-- `parameter(name) = value` succeeds exactly inside the registered domain (and, for `train_per`, on the random splitter
+    only), changes that one value and keeps the domains; a refused value changes nothing (`none`: the object is kept). -/
+theorem splitter_set_spec (s : Splitter) (p : PName) (v : Int) (hok : s.Ok) :
+    (∀ s', s.set p v = some s' → s'.Ok ∧ s'.kind = s.kind ∧
+      (p = .folds → s' = { s with folds := v.toNat }) ∧ (p = .seed → s' = { s with seed := v.toNat }) ∧
+      (p = .trainPer → s' = { s with trainPer := v.toNat })) ∧
+    (p = .seed → ((s.set p v).isSome ↔ (Int.ofNat Gen.Splitter.seedMin ≤ v ∧ v ≤ Int.ofNat Gen.Splitter.seedMax))) ∧
+    (p = .folds → ((s.set p v).isSome ↔ (Int.ofNat Gen.Splitter.foldsMin ≤ v ∧ v ≤ Int.ofNat Gen.Splitter.foldsMax))) ∧
+    (p = .trainPer → ((s.set p v).isSome ↔
+      (s.kind = .random ∧ Int.ofNat Gen.Splitter.trainPerMin ≤ v ∧ v ≤ Int.ofNat Gen.Splitter.trainPerMax))) := by
+  obtain ⟨hp, ht⟩ := hok
+  simp only [paramsOk, trainPerOk, Bool.and_eq_true, decide_eq_true_eq] at hp ht
+  refine ⟨?_, ?_, ?_, ?_⟩
+  · intro s' h
+    cases p <;> simp only [Splitter.set] at h <;> split at h <;> cases h <;>
+      refine ⟨⟨?_, ?_⟩, rfl, by simp, by simp, by simp⟩ <;>
+      simp only [paramsOk, trainPerOk, Bool.and_eq_true, decide_eq_true_eq] <;>
+      rename_i hv <;> simp only [Int.ofNat_eq_natCast] at hv <;> omega
+  · rintro rfl; simp only [Splitter.set]; split <;> simp_all
+  · rintro rfl; simp only [Splitter.set]; split <;> simp_all
+  · rintro rfl; simp only [Splitter.set]; split <;> simp_all
+
+/-- changing the seed and restoring it restores the object -/
+theorem splitter_seed_restore (s s1 : Splitter) (v : Int) (hok : s.Ok) (h : s.set .seed v = some s1) :
+    s1.set .seed (Int.ofNat s.seed) = some s := by
+  obtain ⟨hp, _⟩ := hok
+  simp only [paramsOk, Bool.and_eq_true, decide_eq_true_eq] at hp
+  simp only [Splitter.set] at h
+  split at h
+  · cases h
+    simp only [Splitter.set, Int.ofNat_eq_natCast, Int.toNat_natCast]
+    rw [if_pos ⟨by omega, by omega⟩]
+  · cases h
+
+variable {G : Type} (seedRng : Nat → G) (shuffle : G → List Int → List Int × G) (sort : List Int → List Int)
+
+/-- `split` is const: the objects after the call are the objects before it; its answer is `Splitter.split` of the parameter
+    values in force — a function of (kind, folds, seed, train_per, samples) and nothing else. -/
+theorem hist_split_function (objs : List Splitter) (slot : Nat) (samples : List Int) (s : Splitter) (h : objs[slot]? = some s) :
+    hStep seedRng shuffle sort objs (.split slot samples) = (.splits (s.split seedRng shuffle sort samples), objs) := by
+  simp [hStep, h]
+
+/-- a clone is a new object with the parameter values of the source, the source is kept -/
+theorem hist_clone_copies (objs : List Splitter) (slot : Nat) (s : Splitter) (h : objs[slot]? = some s) :
+    (hStep seedRng shuffle sort objs (.clone slot)).2 = objs ++ [s] ∧
+    (hStep seedRng shuffle sort objs (.clone slot)).2[objs.length]? = some s := by
+  simp [hStep, h]
+
+/-- the objects after ANY history do not depend on the generator, the shuffle or the sort: no object holds generator state -/
+theorem hist_objects_oracle_free {G' : Type} (seedRng' : Nat → G') (shuffle' : G' → List Int → List Int × G')
+    (sort' : List Int → List Int) : ∀ (cmds : List HCmd) (objs : List Splitter),
+    (hRun seedRng shuffle sort objs cmds).2 = (hRun seedRng' shuffle' sort' objs cmds).2
+  | [], _ => rfl
+  | c :: cs, objs => by
+    have h : (hStep seedRng shuffle sort objs c).2 = (hStep seedRng' shuffle' sort' objs c).2 := by
+      cases c with
+      | set slot p v => simp only [hStep]
+      | split slot samples => simp only [hStep]; split <;> rfl
+      | clone slot => simp only [hStep]
+    simp only [hRun, h]
+    exact hist_objects_oracle_free seedRng' shuffle' sort' cs _
+
+/-- **Equal seeds give equal splits, at object level, for every pair of histories**: two objects (of one history or of two)
+    whose parameter values are equal answer `split(samples)` equally — after any number of earlier splits, clones and
+    parameter changes (a seeded change kept the generator as a mutable member: a second `split()` continued the stream). -/
+theorem hist_equal_params_equal_splits (objs1 objs2 : List Splitter) (cmds1 cmds2 : List HCmd) (a b : Nat)
+    (samples : List Int) (s : Splitter)
+    (ha : (hRun seedRng shuffle sort objs1 cmds1).2[a]? = some s)
+    (hb : (hRun seedRng shuffle sort objs2 cmds2).2[b]? = some s) :
+    (hStep seedRng shuffle sort (hRun seedRng shuffle sort objs1 cmds1).2 (.split a samples)).1 =
+    (hStep seedRng shuffle sort (hRun seedRng shuffle sort objs2 cmds2).2 (.split b samples)).1 := by
+  rw [hist_split_function seedRng shuffle sort _ a samples s ha, hist_split_function seedRng shuffle sort _ b samples s hb]
+
+/-- a history of splits only leaves every object as it was: the second `split()` of an object sees the same parameters -/
+theorem hist_splits_keep_objects : ∀ (cmds : List HCmd) (objs : List Splitter),
+    (∀ c ∈ cmds, ∃ slot samples, c = .split slot samples) → (hRun seedRng shuffle sort objs cmds).2 = objs
+  | [], _, _ => rfl
+  | c :: cs, objs, h => by
+    obtain ⟨slot, samples, rfl⟩ := h c (List.mem_cons_self)
+    have h1 : (hStep seedRng shuffle sort objs (.split slot samples)).2 = objs := by
+      simp only [hStep]; split <;> rfl
+    simp only [hRun, h1]
+    exact hist_splits_keep_objects cs objs (fun c hc => h c (List.mem_cons_of_mem _ hc))
+
+/-- The same with rounding made explicit: if the binary64 answer differs from the exact point by `eₖ` in coordinate `k` and
+    `‖e‖₂ ≤ E`, it is within `r + E` of the centre. The python oracle uses `E = √Σ(ulp(xₖ)/2 + 2⁻¹⁰⁷³)²` (the rounding of
+    `x0ₖ + dₖ`: of the size `ulp(‖x0‖)`, independent of the radius) on top of the radius widened by `(n+8)·2⁻⁵³` (the rounding
+    of `dₖ` itself). -/
+theorem ball_inside_rounded {α : Type} [Field α] [LinearOrder α] [IsStrictOrderedRing α] (x0 u e : List α) (r z s E : α)
+    (hlen : u.length = x0.length) (hel : e.length = x0.length) (hs : s * s = sumSq u) (hspos : 0 < s) (hr : 0 ≤ r)
+    (hz0 : 0 ≤ z) (hz1 : z ≤ 1) (hE : 0 ≤ E) (he : sumSq e ≤ E * E) :
+    distSq (List.zipWith (fun a b => a + b) (ballPoint x0 u r z s) e) x0 ≤ (r + E) * (r + E) := by
+  have hbl : (ballPoint x0 u r z s).length = x0.length := by simp [ballPoint, hlen]
+  rw [distSq_add _ e x0 hbl hel]
+  refine sumSq_add_le _ e (by simp [hbl, hel]) r E hr hE ?_ he
+  exact (ball_inside x0 u r z s hlen hs hspos hr hz0 hz1).2
+
 /-! ### non-vacuity: the hypotheses are satisfiable and the conclusions say something on concrete inputs -/
 
 -- 7 samples, 3 folds (7 mod 3 = 1): the hypotheses of `kfold_pair` / `kfold_partition` hold for a concrete shuffle
@@ -306,5 +653,69 @@ example : distSq (ballPoint [1, 1] [3, 4] (2 : Rat) (1 / 2) 5) [1, 1] = 1 := by
   have := (ball_inside [1, 1] [3, 4] (2 : Rat) (1 / 2) 5 rfl (by norm_num [sumSq]) (by norm_num) (by norm_num)
     (by norm_num) (by norm_num)).1
   rw [this]; norm_num
+
+-- the rounded ball: u = (3, 4), s = 5, r = 2, z = 1/2, coordinate errors (1/10, 0): within 2 + 1/10
+example := ball_inside_rounded [1, 1] [3, 4] [1 / 10, 0] (2 : Rat) (1 / 2) 5 (1 / 10) rfl rfl (by norm_num [sumSq]) (by norm_num)
+  (by norm_num) (by norm_num) (by norm_num) (by norm_num) (by norm_num [sumSq])
+-- gap-closing round -------------------------------------------------------------------------------------------------
+-- count = n on an unsorted input with a repeated value: the sorted input whatever the shuffle was
+example : sampleWithout sortI [5, 3, 5] 3 = some (sortI [3, 5, 5]) :=
+  without_full_is_sorted_input sortI sortI_spec [3, 5, 5] [5, 3, 5] (by decide)
+example := without_replacement_submultiset sortI sortI_spec [3, 5, 5] [5, 3, 5] (by decide) 2
+-- the generator: seed 0 becomes state 1, the first output is the multiplier; the canonical numerator is positive
+example : lcgSeed 0 = 1 ∧ lcgSeed 42 = 42 ∧ lcgSeed 2147483647 = 1 ∧ lcgNext 1 = 48271 ∧ 0 < canonNum 1 := by decide
+example := canonNum_pos 42 (by decide) (by decide)
+-- the table of libstdc++ for the weights 0, 1, 2 over ℚ is 0, 1/3, 1; the draw u = 1/2 is position 2, u = 1/3 position 1,
+-- and no u in (0, 1] gives position 0 (the zero weight)
+example : ddCp ([0, 1, 2] : List ℚ) = [0, 1 / 3, 1] := by norm_num [ddCp, accum, normalize, partialSums, psGo, setLast]
+example : lowerBound (fun i => decide (([0, 1 / 3, 1] : List ℚ).getD i 0 < 1 / 2)) 3 = 2 := by
+  norm_num [lowerBound, lbGo, List.getD]
+example := lcgNext_range 42 (by decide) (by decide)
+example := canonNum_lt 42 (by decide) (by decide)
+example := lowerBound_spec (fun i => decide (i < 2)) 5 (by intro i j hij _ h; simp only [decide_eq_true_eq] at h ⊢; omega)
+example : lowerBound (fun i => decide (i < 2)) 5 = 2 ∧ lowerBound (fun _ => false) 5 = 0 ∧ lowerBound (fun _ => true) 5 = 5 := by
+  decide
+example := lowerBound_all_false (fun _ => false) 5 (fun _ _ => rfl)
+example := ddDraw_positive ([0, 1, 2] : List ℚ) (1 / 2) (by simp)
+  (by intro x hx; simp only [List.mem_cons, List.not_mem_nil, or_false] at hx; rcases hx with rfl | rfl | rfl <;> norm_num)
+  (by norm_num) (by norm_num) (by norm_num)
+example := ddCp_get ([0, 1, 2] : List ℚ) (by simp) 1 (by simp)
+/-- a library whose generator is trivial: the shuffle reverses, the uniform draw is 0, the canonical draw is 1/2 -/
+def toyLib : StdLib Unit ℚ := ⟨fun g l => (l.reverse, g), fun g _ => (0, g), fun g => (1 / 2, g)⟩
+theorem toyLib_ok : toyLib.Ok := ⟨fun _ l => List.reverse_perm l, fun _ _ => Nat.zero_le _⟩
+theorem toyLib_canon : toyLib.CanonOk := fun _ => by norm_num [toyLib]
+/-- conversions over ℚ: the cast, a truncation that is at most its argument's integer bound (here: constantly 0 … the
+    contract only bounds it from above), a non-negative "norm" -/
+def toyNum : Num ℚ := ⟨fun n => (n : ℚ), fun _ => 0, fun l => sumSq l⟩
+theorem toyNum_ok : toyNum.Ok := ⟨fun n => Nat.cast_nonneg n, fun _ _ _ => Nat.zero_le _, sumSq_nonneg'⟩
+example := weighted_never_zero_model toyLib toyLib_canon sortI sortI_spec [10, 3, 5] [0, 1, 2] 4 () (by decide) rfl
+  (by intro x hx; simp only [List.mem_cons, List.not_mem_nil, or_false] at hx; rcases hx with rfl | rfl | rfl <;> norm_num)
+  (by norm_num)
+-- the degenerate branch: an empty table or a draw that no entry is less than
+example := weighted_no_comparison_first_sample (α := ℚ) ⟨fun g l => (l, g), fun g _ => (0, g), fun g => (0, g)⟩ sortI
+  sortI_spec [10, 3, 5] [] 4 () 10 rfl (by intro g i; simp [ddCp])
+-- the sampler object in its five modes
+example := sampler_count_le toyNum toyNum_ok (Sampler.make [10, 3, 5] .subsample () (1 / 2 : ℚ)) (by norm_num [Sampler.make])
+example := sampler_off_spec toyNum toyLib sortI (Sampler.make [10, 3, 5] .off () (1 : ℚ)) (fun _ => 1) (fun _ => []) rfl
+example := sampler_subsample_spec toyNum toyNum_ok toyLib toyLib_ok sortI sortI_spec
+  (Sampler.make [10, 3, 5] .subsample () (1 / 2 : ℚ)) (fun _ => 1) (fun _ => []) rfl (by decide) (by norm_num [Sampler.make])
+example := sampler_bootstrap_spec toyNum toyLib toyLib_ok sortI sortI_spec
+  (Sampler.make [10, 3, 5] .bootstrap () (1 / 2 : ℚ)) (fun _ => 1) (fun _ => []) rfl (by simp [Sampler.make])
+example := sampler_weighted_spec toyNum toyLib toyLib_canon sortI sortI_spec
+  (Sampler.make [10, 3, 5] .weiLoss () (1 / 2 : ℚ)) (fun i => if i = 3 then 0 else 1) (fun _ => []) (Or.inl rfl) (by decide)
+  (by intro x hx; simp [Sampler.newWeights, Sampler.make] at hx; rcases hx with rfl | rfl | rfl <;> norm_num)
+  (by norm_num [Sampler.newWeights, Sampler.make])
+example : (Sampler.make [10, 3, 5] .weiGrad () (1 : ℚ)).weights = [0, 0, 0] ∧
+    (Sampler.make [10, 3, 5] .bootstrap () (1 : ℚ)).weights = [] := ⟨rfl, rfl⟩
+-- splitter objects: domains, refusal, restoring the seed; a clone taken after two splits holds the same parameters
+example : ((Splitter.fresh .random).set .seed 7).isSome = true ∧ (Splitter.fresh .random).set .seed 1025 = none ∧
+    (Splitter.fresh .kfold).set .trainPer 50 = none ∧ ((Splitter.fresh .random).set .trainPer 50).isSome = true ∧
+    (Splitter.fresh .kfold).set .folds 1 = none := by decide
+example := splitter_set_spec (Splitter.fresh .random) .seed 7 (Splitter.fresh_ok _)
+example := splitter_seed_restore (Splitter.fresh .random) _ 7 (Splitter.fresh_ok _) rfl
+example := hist_equal_params_equal_splits (fun _ => ()) (fun g l => (l.reverse, g)) id [Splitter.fresh .random] [Splitter.fresh .random]
+  [.split 0 [1, 2, 3], .split 0 [1, 2, 3], .clone 0] [] 1 0 [1, 2, 3] (Splitter.fresh .random) rfl rfl
+example := hist_splits_keep_objects (fun _ => ()) (fun g l => (l.reverse, g)) id [.split 0 [1, 2, 3], .split 0 [4]]
+  [Splitter.fresh .kfold] (by intro c hc; simp only [List.mem_cons, List.not_mem_nil, or_false] at hc; rcases hc with rfl | rfl <;> exact ⟨_, _, rfl⟩)
 
 end NanoVerif.Split
